@@ -36,8 +36,15 @@ def jobs(tier):
         J.append(Job('K-res-type%d-c%d%d'%(ty,c0,c1),'C01/k_res.c',defs=['-DTYPE=%d'%ty,'-DCAS0=%d'%c0,'-DCAS1=%d'%c1],unwind=5,unwindset=[('ov_ilog',None,34),('harness',r'i<pv',6),('_01inverse',r'i<partvals',6),('res2_inverse',r'i<partvals',6)],object_bits=10,
             witnesses=(['nothing to decode'] if c0+c1==0 else ['ended by end of packet','nothing to decode']+(['two passes over three or more partitions'] if max(c0,c1)>=2 else [])),models=['classification word / partition decoders cut: recorded calls (K-bookvec decides the decoders)','_vorbis_block_alloc = malloc'],
             functions=['res0_look','res%d_inverse'%ty,'_01inverse' if ty<2 else 'res2_inverse','res0_free_look'],bounds='2 classifications with cascades (%d,%d), 2 words per class codeword, partition size 2, %s, begin/end 0..10'%(c0,c1,'2 channels of 4 samples' if ty==2 else '1 channel of 6 samples'),weight=3))
+    for ne,lm in ([(4,3)] if q else [(4,3),(5,4),(6,3)]):
+        J.append(Job('huff-words-%d-%d'%(ne,lm),'C01/huff_words.c',defs=['-DNE=%d'%ne,'-DLMAX=%d'%lm],unwind=ne+2,unwindset=[('_make_words',r'j<33',34),('_make_words',r'i<33',34),('_make_words',r'for\(j=length;j>0;j--\)',lm+2),('_make_words',r'j<l\[i\]',lm+2),('unrev',None,lm+1),('ov_ilog',None,34)],checks=['leak'],
+            witnesses=['single-entry book','accepted with three or more entries','rejected'],functions=['_make_words'],models=[],bounds='%d entries, codeword lengths 0..%d, dense and sparse layouts'%(ne,lm),weight=2))
+    for bk in ([0,1,2,3,4,5] if q else [0,1,2,3,4,5,6,7]):
+        J.append(Job('huff-decode-b%d'%bk,'C01/huff_decode.c',defs=['-DBOOK=%d'%bk],unwind=18,unwindset=[('_make_words',r'j<33',34),('_make_words',r'i<33',34),('vorbis_book_init_decode',r'i<tabn',257),('vorbis_book_init_decode',r'j<\(1<<',33),('ov_ilog',None,34),('decode_packed_entry_number',r'while\(lok<0',33)],checks=['leak'],object_bits=10,
+            witnesses=['entry decoded','end of packet']+(['codeword longer than the first-level table'] if bk in (2,5,7) else []),functions=['vorbis_book_init_decode','vorbis_book_decode','decode_packed_entry_number','vorbis_book_clear','_make_words'],
+            models=['M-bitpack (libogg read side, validated against libogg.a)','M-libc qsort (insertion sort)'],bounds='concrete length list %d, every packet of 0..4 bytes, first codeword at bit 0..7'%bk,weight=2))
     J+=other('C02',tier,lambda j:j.name.startswith('K-synth') or j.name=='P-quantvals' or j.name.startswith('K-floor0'))
     J+=blk(tier,lambda j:j.name.startswith('blockin-step'))[:2 if q else 99]
     return J
-CLAIM={'text':'Differential (translation-validation style) bounded checks of the decoder integer/table kernels against references transcribed from the Vorbis I specification: ilog, float32_unpack, lookup1_values, render_point, VQ lookup-table construction (types 1/2, sequence, sparse), the audio packet prologue (mode, window flags), placement of VQ vectors by the four vector decoders (residue 0/1/2 layouts, floor 0), floor-0 coefficient unwrap and amplitude scale (spec 6.2.2), and the per-block sample count / overlap placement of the accumulator.',
- 'note':'Each pair (kernel, reference) is one solver equivalence query over all inputs in the stated bounds. NOT covered: Huffman codeword assignment/decode, floor-1 curve rendering (render_line) and unwrap, floor 0 LSP curve (vorbis_lsp_to_curve: float), residue partition order, inverse coupling, IMDCT/window values - i.e. sample VALUES are outside; only the listed kernels and the sample COUNT are decided. Multi-submap/mode combinations are not unrolled.'}
+CLAIM={'text':'Differential (translation-validation style) bounded checks of the decoder integer/table kernels against references transcribed from the Vorbis I specification: ilog, float32_unpack, lookup1_values, Huffman codeword assignment and tree validation (_make_words), Huffman decode through the sorted-word tables for 6-8 concrete books and every packet (huff-decode), VQ lookup-table construction (types 1/2, sequence, sparse), placement of VQ vectors by the four vector decoders (residue 0/1/2 layouts, floor 0), residue partition/classification order over passes (K-res), floor-1 neighbour tables, packet decode order, amplitude unwrap (7.2.4 step 1), curve synthesis (step 2) and line rasteriser (render_point, render_line), floor-0 coefficient unwrap and amplitude scale (6.2.2), the audio packet prologue (mode, window flags), and the per-block sample count / overlap placement of the accumulator.',
+ 'note':'Each pair (kernel, reference) is one solver equivalence query over all inputs in the stated bounds; shapes (book length lists, post layouts, cascades, vector lengths) are configuration, values symbolic; movers/adders run on distinct tags (DESIGN A.2). NOT covered: floor 0 LSP curve (vorbis_lsp_to_curve), inverse coupling, IMDCT and window VALUES (float DSP), mapping0_inverse glue beyond K-map (C11), multi-submap/mode combinations; so sample values are decided only up to the listed integer/table kernels, the sample COUNT is decided.'}
